@@ -126,12 +126,13 @@ Qed.
 (* … and when that statement meets the guard: the string IS the rendered statement *)
 Theorem model_code_is_rendered_statement chk cs script syms x c :
   parse_model_M chk cs script = POk syms -> In x syms -> scode x = Some c ->
-  exists st, In st (fst (split_M script)) /\
+  exists st L y, In st (fst (split_M script)) /\ parse_equation_M st = POk L /\ In y L /\ scode y = Some c /\
     (is_blank st = false -> head_is "`" st && last_is "`" st = false -> aligned st -> gaps_brace_free (scan_items st) = true ->
      code_text st = Some c).
 Proof.
   intros H Hx Hc. destruct (model_code_provenance chk cs script syms x c H Hx Hc) as (st & L & y & Hst & Ep & Hy & Ey).
-  exists st. split; [exact Hst|]. intros Hb Hv Ha Hg.
+  exists st, L, y. repeat split; auto. intros Hb Hv Ha Hg.
   destruct (endogenous_symbols_carry_code_text st L Ep Hb Hv Ha Hg) as (std & code & _ & Hcode & HF).
   rewrite Forall_forall in HF. destruct (HF y Hy) as [[[_ Hn]|[_ Hs]] _]; congruence.
 Qed.
+
